@@ -3,6 +3,7 @@
 -/
 import VfsModel.Adapters
 import VfsModel.Leaf
+import VfsModel.Embedded
 import Driver.Codec
 namespace Vfs.Driver
 open Vfs
@@ -165,6 +166,16 @@ def stepWorld (s : DState) (toks : List String) : Option (String × DState) :=
     let ls ← parseLayers s layers
     if ls.isEmpty then none
     else pure ("ok", { s with roots := setAt s.roots id (some { fs := Overlay.fs ls, fsId := id, path := [] }) })
+  | "fs" :: id :: "emb" :: files => do
+    let id ← parseNat id
+    let fl ← files.mapM fun t =>
+      match t.splitOn ":" with
+      | [a, b] => do
+        let p ← decStr a
+        let c ← decBytes b
+        pure (p, c)
+      | _ => none
+    pure ("ok", { s with roots := setAt s.roots id (some { fs := Embedded.fs (Embedded.new fl), fsId := id, path := [] }) })
   | "fs" :: id :: "rec" :: tag :: [inner] => do
     let id ← parseNat id
     let tag ← parseNat tag
